@@ -74,7 +74,7 @@ Definition entry (sel : Z) (toks : list Z) : list Z :=
                         ret (sx, v, r, k, idx)) toks with
          | Some ((sp, xs), v, r, k, idx) =>
              match nth_error (combine (s_tasks sp) xs) k with
-             | Some (t, x) => eList ePodFields (create_task_pods v r t x idx)
+             | Some (t, x) => eList ePodFields (map read_fields (task_pod_objs v r t x idx))
              | None => bad_input end
          | None => bad_input end
   | 211 => match run_dec (let* sx := dSpecX in let* v := dZ in let* r := dZ in let* k := dNat in let* idx := dList dZ in
